@@ -9,7 +9,7 @@ import (
 )
 
 func init() {
-	register("C09", "Decided: the shape of the reconnect loop, which fixes the sequence of dial / connect / close / wait operations and the dataflow of the back-off value on every path. R-C09-1 the waited value starts at ReconnectWaitBase, is reset to it only on the success edge of Connect, every way round the loop passes the wait whose timer operand is the current value, and the value carried round is a growth by a constant factor >= 2 of the waited value (optionally clamped to ReconnectWaitMax when it exceeds it); R-C09-2 on every path from a successful dial to the next dial the client is closed and its Done() awaited; R-C09-3 every wait of the loop has returning cases on `disconnected` and ctx.Done(), done is closed by a deferred call, Disconnect closes `disconnected` before it disconnects and waits (observing its context), and the loop context is replaced only by context.Background() inside the once-only success block; R-C09-4 a connection that ended with a nil Err() is not redialled; R-C09-5 one CONNECT per connection with the caller's client id and options. Not decided: elapsed time, races between Disconnect and a dial in progress.", checkC09)
+	register("C09", "Decided: the shape of the reconnect loop, which fixes the sequence of dial / connect / close / wait operations and the dataflow of the back-off value on every path. R-C09-1 the waited value starts at ReconnectWaitBase, is reset to it only on the success edge of Connect, every way round the loop passes the wait whose timer operand is the current value, and the value carried round is a growth by a constant factor >= 2 of the waited value (optionally clamped to ReconnectWaitMax when it exceeds it); R-C09-2 on every path from a successful dial to the next dial the client is closed and its Done() awaited; R-C09-3 every wait of the loop has returning cases on `disconnected` and ctx.Done(), done is closed by a deferred call, Disconnect closes `disconnected` before it disconnects and waits (observing its context), and the loop context is replaced only by context.Background() inside the once-only success block; R-C09-4 a connection that ended with a nil Err() is not redialled; R-C09-5 one CONNECT per connection with the caller's client id and options; R-C09-6 a failed ping makes KeepAlive return a non-nil error, the keep-alive goroutine closes the connection it watched and that connection then reports a non-nil Err(); R-C09-7 the loop returns only behind its context being done, `disconnected`, or a graceful end (every path from entry to a return takes one of those edges). Not decided: elapsed time, races between Disconnect and a dial in progress.", checkC09)
 	register("C08", "Whole property (set equality at a broker at quiescence for all call histories and cut placements) depends on slice contents manipulated by index arithmetic and is NOT decided. Decided: the three configuration clauses of the statement. R-C08-1 the resubscribe decision, as a boolean function of (had a successful connection before, session present in this CONNACK, AlwaysResubscribe), equals initialized AND (NOT sessionPresent OR always) on all 8 rows (evaluated from the branch structure, so any equivalent rewriting passes); R-C08-2 'initialized' starts false, is only ever set to true, and only after the resubscribe decision of that iteration; R-C08-4 the order of subscribe/unsubscribe requests survives queuing and retransmission (queue-behind, ordered re-queue in Retry, Resubscribe before Retry); R-C08-3 what is re-subscribed is the client's current view: Resubscribe issues every element of a snapshot of the established list through the queued subscribe path and resets the list; the subscribe/unsubscribe request closures apply their change to the list before issuing the request, and nothing else writes it.", checkC08)
 }
 
